@@ -76,4 +76,4 @@ LEVEL_TEXT = ('Bounded symbolic verification of the input-function classes: each
               'for the gyro profiles and boundary data = exact solution, for ALL points (and parameter values). The source-term identity f = -div(alpha grad u) + beta u is decided for the 15 Circular-geometry classes without atan profiles; the other 48 classes are searched for counterexamples only.')
 LEVEL_NOTE = 'partial claim: Jacobians, beta = 1/alpha, boundary data; source-term identity proved for 15 of 63 classes, refutation-only for the rest; Culham only in theta at a concrete radius'
 TECHNIQUE = 'symbolic execution of LLVM IR (llsym) + formal differentiation of the term DAG + SMT (z3 QF_NRA with sqrt / trigonometric / exponential axioms)'
-DESIGN_REF = 'DESIGN.md section 6/C19'
+DESIGN_REF = 'DESIGN.md section 0 (status as built: 0.2, 0.5, 0.6) and section 6/C19 (design)'
